@@ -56,14 +56,21 @@ func tname(i int) string {
 	if i >= 100 {
 		return "undefined" + string(rune('a'+i-100))
 	}
-	return "t" + string(rune('a'+i))
+	// tasks 0 and 1 are called "Ta" and "ta": names that differ only by case are different tasks
+	if i == 0 {
+		return "Ta"
+	}
+	return "t" + string(rune('a'+i-1))
 }
 
 func tnum(s string) int {
 	if strings.HasPrefix(s, "undefined") {
 		return 100 + int(s[9]-'a')
 	}
-	return int(s[1] - 'a')
+	if s == "Ta" {
+		return 0
+	}
+	return 1 + int(s[1]-'a')
 }
 
 func graphSource(defs []gdef) string {
